@@ -43,6 +43,8 @@ def shards(tier, seed):
             for i in range(4):
                 out.append(("toysample_p%d_%d" % (p, i), dict(kind="toy", p=p, part=i, parts=4, nrep=3, full=False, sample_curves=6)))
     out.append(("pyopt_toy_p7", dict(kind="toy", p=7, part=0, parts=1, nrep=6, full=False, _pyopt=True)))
+    for i in range(2 if q else 8):
+        out.append(("cross_curve_%d" % i, dict(kind="cross", rounds=40 if q else 400)))
     out.append(("pyopt_prod_NIST192p", dict(kind="prod", cname="NIST192p", rounds=2, _pyopt=True)))
     for c in lib.pick_curves(tier, seed, extra=4):
         out.append(("prod_%s" % c.name, dict(kind="prod", cname=c.name, rounds=3 if q else 25)))
@@ -210,6 +212,8 @@ def run(ctx, name, kind, **kw):
                         if rp == "INF" and rq == "legacy":
                             pass
                         check_binary(ctx, dom, cfp, P, Q, rp, rq, fam, two_t)
+    elif kind == "cross":
+        cross_curve(ctx, rng, kw["rounds"])
     elif kind == "prod":
         c = lib.BY_NAME[kw["cname"]]
         dom = lib.dom_of(c)
@@ -303,3 +307,133 @@ def _prod_add(ctx, dom, cfp, P, Q, rp, rq, cls, fam):
             m = "unreduced_negated_y"
         ctx.violation(m, "%s: %s + %s: %s" % (fam, sa, sb, bad), dict(curve=fam, P=P, Q=Q, reps=(rp, rq), expected=E),
                       points.repro_head(dom) + points.show("%s + %s" % (sa, sb)))
+
+
+# ---------------------------------------------------------------------------------------------------------------- cross-curve
+M61 = (1 << 61) - 1       # CPython: hash(v) == hash(v + M61) for ints, and hash(-1) == hash(-2)
+
+
+def _rand_point(cv, rng):
+    while True:
+        x = rng.randrange(cv.p)
+        pts = cv.lift_x(x)
+        if pts and pts[0][1] != 0:
+            return pts[rng.randrange(len(pts))]
+
+
+def _curve_pair(rng, fam):
+    """Two DIFFERENT curves related in a way that makes state keyed on too little (Z only, coordinates only, hash of the
+    parameters only) alias: -> (ref curve 1, ref curve 2, P1 on 1, P2 on 2)"""
+    from vf.ref import ec, nt
+    bits = rng.choice((24, 64, 130, 192, 256))
+    while True:
+        p1 = nt.random_prime(bits, rng)
+        if fam == "diff_field":
+            p2 = nt.random_prime(bits, rng)
+            if p2 == p1:
+                continue
+            c1 = ec.Curve(p1, rng.randrange(p1), rng.randrange(1, p1))
+            c2 = ec.Curve(p2, rng.randrange(p2), rng.randrange(1, p2))
+            if not (c1.nonsingular() and c2.nonsingular()):
+                continue
+            return c1, c2, _rand_point(c1, rng), _rand_point(c2, rng)
+        if fam == "shared_point":
+            c1 = ec.Curve(p1, rng.randrange(p1), rng.randrange(1, p1))
+            if not c1.nonsingular():
+                continue
+            P = _rand_point(c1, rng)
+            a2 = rng.randrange(p1)
+            b2 = (P[1] * P[1] - P[0] ** 3 - a2 * P[0]) % p1
+            c2 = ec.Curve(p1, a2, b2)
+            if a2 == c1.a or not c2.nonsingular():
+                continue
+            return c1, c2, P, P
+        if fam == "hash_alias":
+            if bits < 64:
+                bits = 130
+                continue
+            which = rng.choice(("a", "b", "a_minus"))
+            if which == "a_minus":
+                a1, a2 = p1 - 1, p1 - 2
+                b1 = b2 = rng.randrange(1, p1)
+            else:
+                k = rng.randrange(1, 1 << (bits - 62))
+                v1 = rng.randrange(1, p1 - k * M61)
+                v2 = v1 + k * M61
+                o = rng.randrange(1, p1)
+                a1, a2, b1, b2 = (v1, v2, o, o) if which == "a" else (o, o, v1, v2)
+            c1, c2 = ec.Curve(p1, a1, b1), ec.Curve(p1, a2, b2)
+            if not (c1.nonsingular() and c2.nonsingular()):
+                continue
+            return c1, c2, _rand_point(c1, rng), _rand_point(c2, rng)
+        raise ValueError(fam)
+
+
+def cross_curve(ctx, rng, rounds, cls="cross_curve"):
+    """Operations on points of two different but related curves, interleaved: every result is the one its own curve gives, and
+    objects of different curves never compare equal."""
+    for _ in range(rounds):
+        fam = rng.choice(("diff_field", "shared_point", "hash_alias", "hash_alias"))
+        c1, c2, P1, P2 = _curve_pair(rng, fam)
+        neg_decl = fam == "hash_alias" and c1.a == c1.p - 1 and rng.random() < 0.7
+        if neg_decl:      # declared as the small negative numbers they are usually written as
+            f1, f2 = lib.CurveFp(c1.p, -1, c1.b), lib.CurveFp(c2.p, -2, c2.b)
+        else:
+            f1, f2 = lib.CurveFp(c1.p, c1.a, c1.b), lib.CurveFp(c2.p, c2.a, c2.b)
+        z = rng.randrange(2, min(c1.p, c2.p))
+        Q1, Q2 = _rand_point(c1, rng), _rand_point(c2, rng)
+        desc = "%s: E1=(p=%d,a=%d,b=%d) E2=(p=%d,a=%d,b=%d)%s" % (fam, c1.p, c1.a, c1.b, c2.p, c2.a, c2.b, " declared a=-1/-2" if neg_decl else "")
+        wit = dict(family=fam, E1=c1.key(), E2=c2.key(), P1=P1, P2=P2, z=z, neg_decl=neg_decl)
+        ctx.case(cls, key="%s|%d" % (fam, c1.p.bit_length()), nontrivial=True, sample=dict(wit) if ctx.want(cls) else None)
+        # ---- the curve objects themselves
+        try:
+            eqc = (f1 == f2, f1 != f2)
+        except Exception as e:
+            eqc = "raised %s" % type(e).__name__
+        ctx.check(eqc == (False, True), "different_curves_compare_equal", "%s: CurveFp == / != give %r" % (desc, eqc), wit)
+        objs = {}
+        for tag, f, cv, P, Q in (("1", f1, c1, P1, Q1), ("2", f2, c2, P2, Q2)):
+            objs[tag] = dict(cv=cv, P=P, Q=Q, A=lib.mk_jac(f, P, z), B=lib.mk_jac(f, Q, z), L=Point(f, P[0], P[1]), A1=PointJacobi(f, P[0], P[1], 1))
+        # ---- points of different curves are never equal (same coordinates or not)
+        for x, y in (("A", "A"), ("A1", "A1"), ("L", "L"), ("A1", "L"), ("L", "A1")):
+            try:
+                r = (objs["1"][x] == objs["2"][y], objs["1"][x] != objs["2"][y])
+            except Exception as e:
+                r = "raised %s" % type(e).__name__
+            ctx.check(r == (False, True), "points_of_different_curves_compare_equal", "%s: %s of E1 == %s of E2 gives %r" % (desc, x, y, r), wit)
+        # ---- interleaved operations
+        plan = []
+        for _i in range(10):
+            plan.append((rng.choice("12"), rng.choice(("x", "y", "double", "add", "mul", "eq", "to_affine", "scale", "neg", "addL"))))
+        for tag, op in plan:
+            o = objs[tag]
+            cv = o["cv"]
+            try:
+                if op == "x":
+                    got, want = o["A"].x(), o["P"][0]
+                elif op == "y":
+                    got, want = o["A"].y(), o["P"][1]
+                elif op == "eq":
+                    got, want = (o["A"] == o["A1"], o["A"] == o["B"]), (True, o["P"] == o["Q"])
+                else:
+                    if op == "double":
+                        R, E = o["A"].double(), cv.dbl(o["P"])
+                    elif op == "add":
+                        R, E = o["A"] + o["B"], cv.add(o["P"], o["Q"])
+                    elif op == "addL":
+                        R, E = o["L"] + o["L"], cv.dbl(o["P"])
+                    elif op == "mul":
+                        k = rng.randrange(2, 50)
+                        R, E = o["B"] * k, cv.mul(k, o["Q"])
+                    elif op == "to_affine":
+                        R, E = o["B"].to_affine(), o["Q"]
+                    elif op == "scale":
+                        R, E = o["A"].scale(), o["P"]
+                    else:
+                        R, E = -o["B"], cv.neg(o["Q"])
+                    bad = judge_point(R, E, cv.p)
+                    got, want = bad, None
+            except Exception as e:
+                got, want = "raised %s: %s" % (type(e).__name__, e), "no exception"
+            ctx.count(cls + ".ops")
+            ctx.check(got == want, "wrong_result_next_to_another_curve:" + op, "%s: after %r, %s on E%s gives %r, expected %r" % (desc, plan, op, tag, got, want), dict(wit, plan=plan))
